@@ -22,7 +22,7 @@ CHECK = {
             # small GOMAXPROCS and a lazy GC triple the throughput
             "gomaxprocs": 2, "env": {"GOGC": "800"},
             "shards": {"quick": 16, "thorough": 16},
-            "budget_s": {"quick": 45, "thorough": 540},
+            "budget_s": {"quick": 40, "thorough": 540},
         },
     ],
 }
